@@ -197,6 +197,7 @@ structure PState where
   hadTakeover : Bool := false
   taken : List Nat := []                              -- sessions that were themselves taken over
   assocPeer : List (String × Nat) := []               -- node id ↦ the peer it (last) associated from
+  tookOver : List Nat := []                           -- sessions that have been taken over by another node id at some point
   repOf : List ((Nat × Nat) × Nat) := []              -- (peer, wire seq) of an outstanding report ↦ UP SEID of the reporting session
 deriving Inhabited
 
@@ -521,7 +522,9 @@ def check (ps : PState) (evLine : String) (obs : List String) (fault : Option St
           for u in (idRules "rurr").eraseDups do
             if c0.urrs.contains u then
               let returned := obs.any fun o => match wordsOf o with
-                | ["dp", s', "remove", "urr", i, "ok", reps] => hexD s' == seid && natD i == u && reps != "_" && reps != ""
+                | ["dp", s', "remove", "urr", i, "ok", reps] =>
+                  -- (the reference data plane now and then answers with a report naming another URR: not this URR's usage)
+                  hexD s' == seid && natD i == u && (parseSrcReps reps).any (·.urr == u)
                 | _ => false
               if returned then
                 let rsp := (sends.filter fun s => s.kind == "modrsp").flatMap fun s => parseUsars (lookD s.f "usar" "_")
@@ -627,8 +630,12 @@ def check (ps : PState) (evLine : String) (obs : List String) (fault : Option St
           | some w =>
             for s in sends do
               if s.kind == "srreq" && s.peer != w then
-                fs := fs ++ [s!"C10 the Session Report Request for session {hexN seid} (node {n}) went to p{s.peer}; the node that owns the session is at p{w}"]
+                -- a session taken over by an IPv6 / FQDN node id: the mechanism renames the OLD node object, which keeps the
+                -- address the old node associated from — the takeover finding (C05 takeoverNode) as it shows in reports
+                let sig := if ps.tookOver.contains seid && !n.startsWith "4:p" then " sig=takeoverNode" else ""
+                fs := fs ++ [s!"C10 the Session Report Request for session {hexN seid} (node {n}) went to p{s.peer}; the node that owns the session is at p{w}{sig}"]
     return fs
+  let tookOver' := (if isTakeover then seid :: ps.tookOver else ps.tookOver).filter fun u => (d.live u).isSome
   let hadTakeover' := ps.hadTakeover || (typ == "recv" && kind == "mod" && lookD m "node" "-" != "-" && !isDup && (prev.live seid).isSome)
   let fails := fails ++ c11fails ++ c12fails ++ c10fails ++ c10dest ++ c05fails
   -- bookkeeping for the next event
@@ -649,6 +656,6 @@ def check (ps : PState) (evLine : String) (obs : List String) (fault : Option St
   let outst0 := if typ == "recv" && (kind == "srrsp" || kind == "orsp") then ps.outst.filter (·.1 != (peer, seq)) else ps.outst
   let outst1 := if typ == "tmo" && lookD m "k" "" == "tx" && !(d.tx.any fun t => t.1 == s!"p{peer}-{seq}")
     then outst0.filter (·.1 != (peer, seq)) else outst0
-  ({ ps with prev := d, cache := cache', outst := outst1 ++ newReqs, nextSeqn := seq1, c12 := c12', own := own', hadTakeover := hadTakeover', taken := taken', assocPeer := assocPeer', repOf := repOf1 }, fails)
+  ({ ps with prev := d, cache := cache', outst := outst1 ++ newReqs, nextSeqn := seq1, c12 := c12', own := own', hadTakeover := hadTakeover', taken := taken', assocPeer := assocPeer', repOf := repOf1, tookOver := tookOver' }, fails)
 
 end UpfVerif.Driver.CtlProps
